@@ -241,7 +241,6 @@ def binarize(grammar, **args):
                         vert = tuple([grammarconst.
                                       label_strip_fanout(label)
                                       for label in vert])
-                        rule_cnt = nf_vert_c[vert]
                     if 'reordering' in args:
                         _func, _lin = args['reordering'](func, lin)
                     else:
